@@ -114,6 +114,9 @@ func manPageAllowList(repo string) (literals []string, patterns []string, err er
 }
 
 func runC11(c *Ctx) {
+	priorityZeroIsAValue(c, "R4")
+	updateJudgesEffectiveValue(c, "R4")
+	hostMatchNeedsEqualLabelCount(c, "R4")
 	p := c.P
 	shellQuoteRule(c, "R9")
 	everyValueRecorded(c, "R2")
